@@ -461,7 +461,8 @@ class ProductLaplaceKernel(Kernel):
             # this is \sum_j f(z_j), so the derivative wrt z will be jacobian(f)(z_j) for all z_j
             return coefs @ torch.exp(factor * (dists * (dists >= self.eps))).sum(dim=1)
 
-        return torch.func.jacrev(forward_func)(zm)
+        # per-output reverse mode: vmapped jacrev through torch.cdist returns the first output's gradient for every output
+        return torch.autograd.functional.jacobian(forward_func, zm)
 
 
 class LpqLaplaceKernel(Kernel):
@@ -552,7 +553,8 @@ class LpqLaplaceKernel(Kernel):
             kernel_vals = torch.exp(factor * dist_pow_q)
             return coefs @ kernel_vals.sum(dim=1)
 
-        return torch.func.jacrev(forward_func)(zm)
+        # per-output reverse mode: vmapped jacrev through torch.cdist returns the first output's gradient for every output
+        return torch.autograd.functional.jacobian(forward_func, zm)
 
 class SumPowerLaplaceKernel(Kernel):
     def __init__(self, bandwidth: float, exponent: float, eps: float = 1e-10, const_mix: float = 0.0,
